@@ -12,14 +12,16 @@ prop(
              quick=dict(checks=24000, shards=16, timeout=600),
              thorough=dict(checks=800000, shards=16, timeout=7200)),
         dict(run="^TestPropBinaryCommands$",
-             quick=dict(checks=48, shards=16, timeout=900),
-             thorough=dict(checks=960, shards=16, timeout=7200)),
+             # no shrinking: every execution starts the real binary several times (a watch run takes seconds) and
+             # rapid only looks at its shrink deadline between passes; the cases are small as generated
+             quick=dict(checks=48, shards=16, timeout=900, shrinktime="0s"),
+             thorough=dict(checks=960, shards=16, timeout=7200, shrinktime="0s")),
     ],
     rule="1-4 rule{} blocks, each with 0-3 match and 0-3 ignore sub-blocks of 1-4 conditions over all nine kinds (path, name, kind, "
          "label, annotation, for, keep_firing_for, command, state; regexps from pools with partial-match traps, alternations, inner "
          "anchors, flags) and one marker check per block (distinct String() by default; in about 40% of the cases a block repeats an "
          "earlier block's check definition verbatim, so pint's de-duplication by String() is exercised), x 1-2 rule files (1-2 groups, group labels half of "
-         "the time, 1-3 rules over the small gen vocabulary) x 2-4 drawn (command, entry state) pairs from {lint, ci, watch} x {noop, added, "
+         "the time, 1-3 rules over the small gen vocabulary) (a third of the cases reach one more rule file through a symbolic link - file or directory link, target inside or outside the linted tree, link or its directory handed to pint's real GlobFinder - with path conditions that tell link and target apart; path conditions are matched against the name the file was found under) x 2-4 drawn (command, entry state) pairs from {lint, ci, watch} x {noop, added, "
          "modified, moved}; each distinct marker check must be returned by config.GetChecksForEntry exactly once iff at least one block "
          "carrying it applies; this is compared with a reference evaluator of the "
          "documented semantics that works from the generator's own model of the rules. Non-trivial: some rule block has a match and "
@@ -29,7 +31,7 @@ prop(
                 "with an observable marker check (required label / required annotation / name / for), one rule file of 2-4 rules, run through "
                 "the real binary as `pint lint`, `pint ci` (tiny git repository) and `pint watch glob` (own loopback port, /metrics read once "
                 "the collector's pint_problems gauge appears); the marker problems per (rule, block) must match the reference evaluator for the "
-                "command the binary was started as. A disagreement must be observed twice; unobservable runs are inconclusive (counted).",
+                "command the binary was started as. Half of the binary cases find the rule file through the symlink rules/1.yml -> ../common/1.yml (lint and watch) with path conditions on rules/ vs common/. A disagreement must be observed twice; unobservable runs are inconclusive (counted).",
     level_text="Generated-input search (rapid, fixed seeds) against an independent reference evaluator of the documented "
                "match/ignore semantics. Says the selection agreed on N generated (configuration, rule files, 2-4 (command, state) pairs) "
                "cases, for every rule x rule block of the case; no proof of absence.",
